@@ -76,45 +76,45 @@ type (
 )
 
 // the three methods of the v1 Message interface (no Descriptor method: the descriptor must come from the tags)
-func (m *LegacyShadowP2a) Reset()         { *m = LegacyShadowP2a{} }
-func (m *LegacyShadowP2a) String() string { return "LegacyShadowP2a" }
-func (*LegacyShadowP2a) ProtoMessage()    {}
-func (m *LegacyShadowP2b) Reset()         { *m = LegacyShadowP2b{} }
-func (m *LegacyShadowP2b) String() string { return "LegacyShadowP2b" }
-func (*LegacyShadowP2b) ProtoMessage()    {}
-func (m *LegacyShadowP2c) Reset()         { *m = LegacyShadowP2c{} }
-func (m *LegacyShadowP2c) String() string { return "LegacyShadowP2c" }
-func (*LegacyShadowP2c) ProtoMessage()    {}
-func (m *LegacyShadowP2d) Reset()         { *m = LegacyShadowP2d{} }
-func (m *LegacyShadowP2d) String() string { return "LegacyShadowP2d" }
-func (*LegacyShadowP2d) ProtoMessage()    {}
-func (m *LegacyShadowP2e) Reset()         { *m = LegacyShadowP2e{} }
-func (m *LegacyShadowP2e) String() string { return "LegacyShadowP2e" }
-func (*LegacyShadowP2e) ProtoMessage()    {}
-func (m *LegacyShadowP2f) Reset()         { *m = LegacyShadowP2f{} }
-func (m *LegacyShadowP2f) String() string { return "LegacyShadowP2f" }
-func (*LegacyShadowP2f) ProtoMessage()    {}
-func (m *LegacyShadowP3a) Reset()         { *m = LegacyShadowP3a{} }
-func (m *LegacyShadowP3a) String() string { return "LegacyShadowP3a" }
-func (*LegacyShadowP3a) ProtoMessage()    {}
-func (m *LegacyShadowP3b) Reset()         { *m = LegacyShadowP3b{} }
-func (m *LegacyShadowP3b) String() string { return "LegacyShadowP3b" }
-func (*LegacyShadowP3b) ProtoMessage()    {}
-func (m *LegacyShadowP3c) Reset()         { *m = LegacyShadowP3c{} }
-func (m *LegacyShadowP3c) String() string { return "LegacyShadowP3c" }
-func (*LegacyShadowP3c) ProtoMessage()    {}
-func (m *LegacyShadowP3d) Reset()         { *m = LegacyShadowP3d{} }
-func (m *LegacyShadowP3d) String() string { return "LegacyShadowP3d" }
-func (*LegacyShadowP3d) ProtoMessage()    {}
-func (m *LegacyShadowP3e) Reset()         { *m = LegacyShadowP3e{} }
-func (m *LegacyShadowP3e) String() string { return "LegacyShadowP3e" }
-func (*LegacyShadowP3e) ProtoMessage()    {}
-func (m *LegacyShadowP3f) Reset()         { *m = LegacyShadowP3f{} }
-func (m *LegacyShadowP3f) String() string { return "LegacyShadowP3f" }
-func (*LegacyShadowP3f) ProtoMessage()    {}
-func (m *LegacyAbMessage) Reset()         { *m = LegacyAbMessage{} }
-func (m *LegacyAbMessage) String() string { return "LegacyAbMessage" }
-func (*LegacyAbMessage) ProtoMessage()    {}
+func (m *LegacyShadowP2a) Reset()          { *m = LegacyShadowP2a{} }
+func (m *LegacyShadowP2a) String() string  { return "LegacyShadowP2a" }
+func (*LegacyShadowP2a) ProtoMessage()     {}
+func (m *LegacyShadowP2b) Reset()          { *m = LegacyShadowP2b{} }
+func (m *LegacyShadowP2b) String() string  { return "LegacyShadowP2b" }
+func (*LegacyShadowP2b) ProtoMessage()     {}
+func (m *LegacyShadowP2c) Reset()          { *m = LegacyShadowP2c{} }
+func (m *LegacyShadowP2c) String() string  { return "LegacyShadowP2c" }
+func (*LegacyShadowP2c) ProtoMessage()     {}
+func (m *LegacyShadowP2d) Reset()          { *m = LegacyShadowP2d{} }
+func (m *LegacyShadowP2d) String() string  { return "LegacyShadowP2d" }
+func (*LegacyShadowP2d) ProtoMessage()     {}
+func (m *LegacyShadowP2e) Reset()          { *m = LegacyShadowP2e{} }
+func (m *LegacyShadowP2e) String() string  { return "LegacyShadowP2e" }
+func (*LegacyShadowP2e) ProtoMessage()     {}
+func (m *LegacyShadowP2f) Reset()          { *m = LegacyShadowP2f{} }
+func (m *LegacyShadowP2f) String() string  { return "LegacyShadowP2f" }
+func (*LegacyShadowP2f) ProtoMessage()     {}
+func (m *LegacyShadowP3a) Reset()          { *m = LegacyShadowP3a{} }
+func (m *LegacyShadowP3a) String() string  { return "LegacyShadowP3a" }
+func (*LegacyShadowP3a) ProtoMessage()     {}
+func (m *LegacyShadowP3b) Reset()          { *m = LegacyShadowP3b{} }
+func (m *LegacyShadowP3b) String() string  { return "LegacyShadowP3b" }
+func (*LegacyShadowP3b) ProtoMessage()     {}
+func (m *LegacyShadowP3c) Reset()          { *m = LegacyShadowP3c{} }
+func (m *LegacyShadowP3c) String() string  { return "LegacyShadowP3c" }
+func (*LegacyShadowP3c) ProtoMessage()     {}
+func (m *LegacyShadowP3d) Reset()          { *m = LegacyShadowP3d{} }
+func (m *LegacyShadowP3d) String() string  { return "LegacyShadowP3d" }
+func (*LegacyShadowP3d) ProtoMessage()     {}
+func (m *LegacyShadowP3e) Reset()          { *m = LegacyShadowP3e{} }
+func (m *LegacyShadowP3e) String() string  { return "LegacyShadowP3e" }
+func (*LegacyShadowP3e) ProtoMessage()     {}
+func (m *LegacyShadowP3f) Reset()          { *m = LegacyShadowP3f{} }
+func (m *LegacyShadowP3f) String() string  { return "LegacyShadowP3f" }
+func (*LegacyShadowP3f) ProtoMessage()     {}
+func (m *LegacyAbMessage) Reset()          { *m = LegacyAbMessage{} }
+func (m *LegacyAbMessage) String() string  { return "LegacyAbMessage" }
+func (*LegacyAbMessage) ProtoMessage()     {}
 func (m *LegacyAb3Message) Reset()         { *m = LegacyAb3Message{} }
 func (m *LegacyAb3Message) String() string { return "LegacyAb3Message" }
 func (*LegacyAb3Message) ProtoMessage()    {}
@@ -165,6 +165,7 @@ func (*LegacyShadowP3c) XXX_OneofWrappers() []any { return legacyWrappersOf((*p3
 func (*LegacyShadowP3d) XXX_OneofWrappers() []any { return legacyWrappersOf((*p3d.Message)(nil)) }
 func (*LegacyShadowP3e) XXX_OneofWrappers() []any { return legacyWrappersOf((*p3e.Message)(nil)) }
 func (*LegacyShadowP3f) XXX_OneofWrappers() []any { return legacyWrappersOf((*p3f.Message)(nil)) }
+
 // the message name is not in the tags either (XXX_MessageName is the v1 hook for it)
 func (*LegacyShadowP2a) XXX_MessageName() string { return "google.golang.org.proto2_20160225.Message" }
 func (*LegacyShadowP2b) XXX_MessageName() string { return "google.golang.org.proto2_20160519.Message" }
@@ -182,8 +183,8 @@ func (*LegacyShadowP3f) XXX_MessageName() string { return "google.golang.org.pro
 type legacyGen struct {
 	name   string
 	proto3 bool
-	newMsg func() any     // *pkg.Message
-	shadow func(any) any  // (*LegacyShadowX)(m)
+	newMsg func() any    // *pkg.Message
+	shadow func(any) any // (*LegacyShadowX)(m)
 	md     protoreflect.MessageDescriptor
 	xts    []protoreflect.ExtensionType // extensions of Message, by number
 	// proto3 generations before 2018-08 do not mark their tags "proto3": read through the tags
@@ -489,9 +490,9 @@ var (
 
 type legacyObs struct {
 	dump, text, json string
-	wire            []byte
-	size            int
-	errs            string
+	wire             []byte
+	size             int
+	errs             string
 }
 
 func legacyObserve(m proto.Message) (o legacyObs) {
@@ -894,20 +895,20 @@ func (*LegacyAbOneofMessage) isLegacyAbOneof() {}
 
 // proto3 flavour: plain scalars, marked proto3
 type LegacyAb3Message struct {
-	Bool     bool              `protobuf:"varint,1,opt,name=f_bool,json=fBool,proto3"`
-	Int32    int32             `protobuf:"varint,2,opt,name=f_int32,json=fInt32,proto3"`
-	Sint64   int64             `protobuf:"zigzag64,3,opt,name=f_sint64,json=fSint64,proto3"`
-	Fixed32  uint32            `protobuf:"fixed32,4,opt,name=f_fixed32,json=fFixed32,proto3"`
-	Float    float32           `protobuf:"fixed32,5,opt,name=f_float,json=fFloat,proto3"`
-	Double   float64           `protobuf:"fixed64,6,opt,name=f_double,json=fDouble,proto3"`
-	String_  string            `protobuf:"bytes,7,opt,name=f_string,json=fString,proto3"`
-	Bytes    []byte            `protobuf:"bytes,8,opt,name=f_bytes,json=fBytes,proto3"`
-	Enum     LegacyAbEnum      `protobuf:"varint,9,opt,name=f_enum,json=fEnum,proto3,enum=verif.LegacyAbEnum"`
-	Message  *LegacyAb3Message `protobuf:"bytes,10,opt,name=f_message,json=fMessage,proto3"`
-	RepInt32 []int32           `protobuf:"varint,11,rep,packed,name=rep_int32,json=repInt32,proto3"`
-	RepStr   []string          `protobuf:"bytes,12,rep,name=rep_string,json=repString,proto3"`
+	Bool     bool                `protobuf:"varint,1,opt,name=f_bool,json=fBool,proto3"`
+	Int32    int32               `protobuf:"varint,2,opt,name=f_int32,json=fInt32,proto3"`
+	Sint64   int64               `protobuf:"zigzag64,3,opt,name=f_sint64,json=fSint64,proto3"`
+	Fixed32  uint32              `protobuf:"fixed32,4,opt,name=f_fixed32,json=fFixed32,proto3"`
+	Float    float32             `protobuf:"fixed32,5,opt,name=f_float,json=fFloat,proto3"`
+	Double   float64             `protobuf:"fixed64,6,opt,name=f_double,json=fDouble,proto3"`
+	String_  string              `protobuf:"bytes,7,opt,name=f_string,json=fString,proto3"`
+	Bytes    []byte              `protobuf:"bytes,8,opt,name=f_bytes,json=fBytes,proto3"`
+	Enum     LegacyAbEnum        `protobuf:"varint,9,opt,name=f_enum,json=fEnum,proto3,enum=verif.LegacyAbEnum"`
+	Message  *LegacyAb3Message   `protobuf:"bytes,10,opt,name=f_message,json=fMessage,proto3"`
+	RepInt32 []int32             `protobuf:"varint,11,rep,packed,name=rep_int32,json=repInt32,proto3"`
+	RepStr   []string            `protobuf:"bytes,12,rep,name=rep_string,json=repString,proto3"`
 	RepMsg   []*LegacyAb3Message `protobuf:"bytes,13,rep,name=rep_message,json=repMessage,proto3"`
-	MapU32B  map[uint32]bool   `protobuf:"bytes,14,rep,name=map_u32_bool,json=mapU32Bool,proto3" protobuf_key:"varint,1,opt,name=key,proto3" protobuf_val:"varint,2,opt,name=value,proto3"`
+	MapU32B  map[uint32]bool     `protobuf:"bytes,14,rep,name=map_u32_bool,json=mapU32Bool,proto3" protobuf_key:"varint,1,opt,name=key,proto3" protobuf_val:"varint,2,opt,name=value,proto3"`
 	// explicitly unpacked in the .proto: the 2017+ generators omit "packed" then
 	RepUnpacked []int64 `protobuf:"varint,15,rep,name=rep_unpacked,json=repUnpacked,proto3"`
 
